@@ -134,6 +134,7 @@ macro_rules! to_signed_bytes_shape {
         #[kani::proof]
         #[kani::unwind(34)]
         #[kani::stub(crate::biguint::BigUint::to_bytes_le, $tbl)]
+        #[kani::stub(crate::biguint::verif_common::symbolic, crate::biguint::verif_common::yes)]
         #[kani::stub(crate::biguint::BigUint::to_bytes_be, $tbb)]
         fn $name() {
             let a0: [u64; 1] = vc::any_canon::<1>();
@@ -143,6 +144,19 @@ macro_rules! to_signed_bytes_shape {
                 out.reverse();
             }
             let n = out.len();
+            if !vc::symbolic() {
+                // native replay: the magnitude bytes come from the real to_bytes_le of the concrete value
+                let real = x.magnitude().to_bytes_le();
+                let t = tc::<$w>(&x);
+                kani::assert(eq_w(&window_of_signed::<$w>(&out), &t), "VERIF to_signed_bytes does not decode to the value");
+                if n >= 2 {
+                    let top = out[n - 1];
+                    let next_msb = out[n - 2] > 0x7f;
+                    kani::assert(!(top == 0x00 && !next_msb) && !(top == 0xff && next_msb), "VERIF to_signed_bytes is not the shortest encoding");
+                }
+                let _ = real;
+                return;
+            }
             kani::assert(n == $nb || n == $nb + 1, "VERIF to_signed_bytes length out of range");
             // magnitude window from the model bytes
             let mut m = [0u64; $w];
